@@ -2,6 +2,7 @@ package main
 
 import (
 	"fmt"
+	"go/ast"
 	"go/token"
 	"go/types"
 	"sort"
@@ -1367,3 +1368,120 @@ func (ft *funcTracer) traceCallResult(c *ssa.Call, idx int, depth int) {
 		}
 	})
 }
+
+// ---------- state nobody reads ----------
+
+// globalUse summarises how the module's package-level variables are used by execution code: a variable that execution
+// code writes but never reads (a counter bumped with atomic.Add, a "last duration" that only a debug helper outside
+// the execution prints) cannot carry anything from one execution into another; a variable that nothing writes after
+// the package initialiser (a trace hook nobody installs) is a constant. Both are reported by their use, not by their
+// name or type.
+type globalUseInfo struct {
+	readInE    map[*ssa.Global]bool
+	writtenAny map[*ssa.Global]bool // written anywhere outside a package initialiser
+}
+
+func rootGlobalOf(v ssa.Value) *ssa.Global {
+	for d := 0; d < 6 && v != nil; d++ {
+		switch x := v.(type) {
+		case *ssa.Global:
+			return x
+		case *ssa.FieldAddr:
+			v = x.X
+		case *ssa.IndexAddr:
+			v = x.X
+		default:
+			return nil
+		}
+	}
+	return nil
+}
+
+// atomicWriteOnly: the call only writes its receiver / first argument (sync/atomic Add, Store, Swap, And, Or).
+func atomicWriteOnly(ci *callInfo) bool {
+	if ci == nil || ci.static == nil || !isPkgFunc(ci.static, "sync/atomic") {
+		return false
+	}
+	n := ci.static.Name()
+	for _, p := range []string{"Add", "Store", "Swap", "And", "Or"} {
+		if strings.HasPrefix(n, p) {
+			return true
+		}
+	}
+	return false
+}
+
+func (P *Prog) globalUse() *globalUseInfo {
+	if P.globalUseMemo != nil {
+		return P.globalUseMemo
+	}
+	gu := &globalUseInfo{readInE: map[*ssa.Global]bool{}, writtenAny: map[*ssa.Global]bool{}}
+	cg := P.buildModCG()
+	E := P.execSet(cg)
+	// code a user of the public API can cause to run: everything reachable from an exported function or method. A
+	// write that sits in an unexported function nothing calls (a `setTraceHook` kept for the library's own debugging)
+	// does not happen
+	var apiRoots []*ssa.Function
+	for _, fn := range P.Funcs {
+		if fn.Parent() == nil && ast.IsExported(fn.Name()) && inModule(funcPkgPath(fn)) {
+			apiRoots = append(apiRoots, fn)
+		}
+	}
+	live := cg.reachableFrom(apiRoots)
+	for f := range E {
+		live[f] = true
+	}
+	for _, fn := range P.Funcs {
+		if fn.Synthetic == "package initializer" {
+			continue
+		}
+		top := fn
+		for top.Parent() != nil {
+			top = top.Parent()
+		}
+		if !live[fn] && !live[top] {
+			continue
+		}
+		inE := E[fn]
+		eachInstr(fn, func(_ *ssa.BasicBlock, _ int, in ssa.Instruction) {
+			switch in.(type) {
+			case *ssa.FieldAddr, *ssa.IndexAddr:
+				return // an address computation: its own users are looked at
+			}
+			ci := callOf(in)
+			for i, op := range in.Operands(nil) {
+				if op == nil || *op == nil {
+					continue
+				}
+				g := rootGlobalOf(*op)
+				if g == nil {
+					continue
+				}
+				write := false
+				if st, ok := in.(*ssa.Store); ok && st.Addr == *op {
+					write = true
+				}
+				if ci != nil && atomicWriteOnly(ci) && len(ci.args()) > 0 && ci.args()[0] == *op {
+					// (the result of Add/Swap is a read only if it is used)
+					if v, isV := in.(ssa.Value); !isV || v.Referrers() == nil || len(*v.Referrers()) == 0 {
+						write = true
+					}
+				}
+				_ = i
+				if write {
+					gu.writtenAny[g] = true
+				} else if inE {
+					gu.readInE[g] = true
+				}
+			}
+		})
+	}
+	P.globalUseMemo = gu
+	return gu
+}
+
+// writeOnlyInExecution: execution code never reads g.
+func (P *Prog) writeOnlyInExecution(g *ssa.Global) bool { return g != nil && !P.globalUse().readInE[g] }
+
+// neverWritten: nothing outside the package initialiser writes g.
+func (P *Prog) neverWritten(g *ssa.Global) bool { return g != nil && !P.globalUse().writtenAny[g] }
